@@ -219,7 +219,7 @@ def run(tier, replay):
     cexe = c01.cosim_exe()
     pj = []
     pubmap = {n.split("+")[0]: n for n in lis_b}
-    for base, chain in S.bkg_names().items():
+    for base, chain in S.bkg_names(port_only=True).items():
         k0 = chain[0][0]
         paths = S.all_paths(k0) if len(chain) > 1 else [p_ for (_e, p_) in S.witness_paths(k0)]
         for p_ in paths:
